@@ -56,7 +56,9 @@ fn run_replay(job: &Value) {
         // generic complex operands: both parts non-zero, moderate magnitude (C08)
         // ... and nearly real / nearly imaginary ones (the small component must survive), small and large moduli
         phs = [(1.5, -2.0), (0.3, 0.7), (-1.2, 0.4), (2.5, 1.5), (-0.8, -1.1), (0.05, 3.0),
-               (4.0, 5e-8), (2.0, -3e-7), (3e-8, 2.0), (-5e-8, -0.5), (0.7, 1e-5), (1e-5, 1e-5), (-3e-6, 2e-6), (250.0, -40.0), (1e-3, 0.4), (30.0, 1e-7)].iter().map(|(a, b)| val::Val::C(num_complex::Complex::new(*a, *b))).collect();
+               (4.0, 5e-8), (2.0, -3e-7), (3e-8, 2.0), (-5e-8, -0.5), (0.7, 1e-5), (1e-5, 1e-5), (-3e-6, 2e-6), (250.0, -40.0), (1e-3, 0.4), (30.0, 1e-7),
+               // exactly on the axes (an implementation may take a real-arithmetic detour there)
+               (-2.0, 0.0), (-0.5, 0.0), (-3.0, 0.0), (0.0, 2.0), (0.0, -1.0), (2.0, 0.0)].iter().map(|(a, b)| val::Val::C(num_complex::Complex::new(*a, *b))).collect();
     }
     let boundary = job["boundary_pool"].as_bool().unwrap_or(false);
     let max_assign = job["max_assign"].as_u64().unwrap_or(512) as usize;
@@ -75,6 +77,7 @@ fn run_replay(job: &Value) {
         let bv: Value = match serde_json::from_str(&line) { Ok(x) => x, Err(_) => continue };
         out.heartbeat(i);
         out.stats.items += 1;
+        if bv["kind"].as_str() == Some("vocab") && job["only_evaluator"].as_str().map_or(false, |x| bv["e"].as_str() != Some(x)) { continue; }
         if bv["kind"].as_str() == Some("vocab") { out.heartbeat(i); out.stats.items += 1; functions::replay_item(&mut out, &bv, &mut rng, job["samples_per_pair"].as_u64().unwrap_or(200) as usize); continue; }
         if bv["kind"].as_str() == Some("fclass") { out.heartbeat(i); out.stats.items += 1; fclass::replay(&mut out, &bv); continue; }
         if bv.get("chars").is_some() {
@@ -157,6 +160,7 @@ fn run_cross(job: &Value) {
             out.stats.items += 1;
             if pair == "cpx-f64" { cross::cpx_f64_item(&mut out, &v, &bv, &mut rng, n); continue; }
             if pair == "num-f64-vocab" { cross::num_f64_item(&mut out, &bv); continue; }
+            if pair == "chars" { cross::chars_item(&mut out, &v, &bv, i); continue; }
             let b = parse_beh(&bv);
             match pair.as_str() {
                 "i64-num" => cross::i64_num(&mut out, &v, &b, &mut rng, max_assign),
